@@ -1,14 +1,19 @@
 #!/usr/bin/env python3
-"""tools/mkmutant.py <name> <repo-relative-file> <old> <new> [<file2> <old2> <new2> ...] — write mutants/<name>.diff (string replacement, exactly one match each)."""
-import difflib, sys
+"""tools/mkmutant.py <name> (<repo-relative-file> <old> <new>)+ — write mutants/<name>.diff (string replacement, exactly one match each; a file may repeat)."""
+import difflib, sys, collections
 name = sys.argv[1]
-out = []
 args = sys.argv[2:]
+assert len(args) % 3 == 0
+orig, cur = {}, collections.OrderedDict()
 for i in range(0, len(args), 3):
     rel, old, new = args[i:i+3]
-    s = open(f"/repo/{rel}").read()
+    if rel not in cur:
+        orig[rel] = cur[rel] = open(f"/repo/{rel}").read()
+    s = cur[rel]
     assert s.count(old) == 1, f"{rel}: {s.count(old)} matches for {old!r}"
-    t = s.replace(old, new)
-    out += list(difflib.unified_diff(s.splitlines(True), t.splitlines(True), f"a/{rel}", f"b/{rel}"))
+    cur[rel] = s.replace(old, new)
+out = []
+for rel in cur:
+    out += list(difflib.unified_diff(orig[rel].splitlines(True), cur[rel].splitlines(True), f"a/{rel}", f"b/{rel}"))
 open(f"/verif/mutants/{name}.diff", "w").write("".join(out))
 print(f"wrote mutants/{name}.diff ({len(out)} lines)")
